@@ -27,7 +27,7 @@
 (*   Y k st        event delivered to the stream consumer                  *)
 (***************************************************************************)
 EXTENDS Stateful, Json, IOUtils
-Runs == JsonDeserialize(IOEnv.OBS_FILE)      \* sequence of [stop |-> BOOLEAN, lines |-> sequence of lines]
+Runs == JsonDeserialize(IOEnv.OBS_FILE)      \* sequence of [stop |-> BOOLEAN, unique |-> BOOLEAN, lines |-> sequence of lines]
 VARIABLES t, l, cnt, cntLimit, pendCtrlC, owedInt
 aux == <<t, l, cnt, cntLimit, pendCtrlC, owedInt>>
 tvars == <<vars, aux>>
@@ -53,6 +53,7 @@ Silent ==
      \/ C_Get \/ C_Timeout \/ C_Alive \/ C_Join
      \/ (C_Drain /\ q = <<>>)
      \/ (Runs[t].stop /\ Env_Stop)
+     \/ (Runs[t].unique /\ T_Step)      \* with unique-inputs a step may be answered from the outcome cache: no request reaches the API
 CtrlCTakesEffect ==
   /\ pendCtrlC /\ C_CtrlC
   /\ pendCtrlC' = FALSE /\ owedInt' = TRUE /\ UNCHANGED <<t, l, cnt, cntLimit>>
